@@ -187,6 +187,8 @@ def write_backend(root, spec):
     d = root / 'replicat' / 'backends'
     d.mkdir(parents=True, exist_ok=True)
     (d / (spec['module'] + '.py')).write_text(spec['source'], encoding='utf-8')
+    for sup in spec.get('support', []):      # generated modules this backend's class derives from (harness/impl/c19_hier.py)
+        (d / (sup['module'] + '.py')).write_text(sup['source'], encoding='utf-8')
 
 
 def describe(o):
